@@ -89,9 +89,11 @@ def expected(W, H, rule, aa, ops):
                 if y1 <= y < y2:
                     X = Fr(x1) + Fr((y - y1) * (x2 - x1), (y2 - y1))
                     q = (X + Fr(1, 2)).__floor__()
-                    # the crate steps the edge from its top (also above the surface) with a slope truncated to 16.16
-                    err = Fr(y - y1 + 2, 16384) + Fr(1, 10 ** 6)
-                    qlo, qhi = (X - err + Fr(1, 2)).__floor__(), (X + err + Fr(1, 2)).__floor__()
+                    # the crate steps the edge from its top (also above the surface) with a slope truncated TOWARDS ZERO to
+                    # 16.16: its crossing lags behind the exact one, by less than one 16.16 unit per row stepped
+                    err = Fr(y - y1 + 2, 16384)
+                    lo, hi = ((X - err, X) if x2 > x1 else ((X, X + err) if x2 < x1 else (X, X)))
+                    qlo, qhi = (lo - Fr(1, 10 ** 6) + Fr(1, 2)).__floor__(), (hi + Fr(1, 10 ** 6) + Fr(1, 2)).__floor__()
                     act.append((q, w, (qlo - 1, qhi + 1) if qlo != qhi else None))
             for c in range(4 * W):
                 wsum = sum(w for q, w, u in act if q <= c)
@@ -112,8 +114,9 @@ def expected(W, H, rule, aa, ops):
                 if y1 <= y < y2:
                     X = Fr(x1) + Fr((y - y1) * (x2 - x1), (y2 - y1))
                     q = (X + Fr(1, 2)).__floor__()
-                    err = Fr(y - y1 + 2, 16384) + Fr(1, 10 ** 6)
-                    if (X - err + Fr(1, 2)).__floor__() != (X + err + Fr(1, 2)).__floor__():
+                    err = Fr(y - y1 + 2, 16384)
+                    lo, hi = ((X - err, X) if x2 > x1 else ((X, X + err) if x2 < x1 else (X, X)))
+                    if (lo - Fr(1, 10 ** 6) + Fr(1, 2)).__floor__() != (hi + Fr(1, 10 ** 6) + Fr(1, 2)).__floor__():
                         unc_row = True
                     act.append((q, w))
             if unc_row:
@@ -193,7 +196,7 @@ def nontrivial(sr, i):
 
 
 ASSUME = ["vertices on the quarter-pixel grid within the working range (|x| <= 12000 px, |y| <= 30000 px exercised); the oracle's crossing-error allowance is (y - y1 + 2) * 2^-14 "
-          "quarter pixels (the slope is truncated to 16.16)"]
+          "quarter pixels on the side the truncation of the slope towards zero moves it to"]
 
 
 def run(ctx):
